@@ -50,7 +50,7 @@ RULE = ("A: random filter trees (depth <= 4, leaves: name/type patterns, field e
         "verdict) triples + distinct view states"
         ". Round-5 addition: ordering of vector fields is decided by the reference itself, axis by axis, and literals include vectors that tie on some axes and differ on others"
         ". Rounds 6-7: != is judged as the negation of ==; directed equality pairs in the other spelling a value accepts (vector vs tuple, unterminated text vs string); wildcards in the sub-field position aimed at the last / first key and at values only some keys have; three time zones; dates in exported event-queue entries compared as instants"
-        ". Round 8: entries frozen while the lazily parsed body is untouched (as encoded, zero runs split differently, body cut short, garbage body): live and thawed message still serialise to the datagram")
+        ". Round 8: entries frozen while the lazily parsed body is untouched (as encoded, zero runs split differently, body cut short, garbage body): live and thawed message still serialise to the datagram. Round 11: entries are handed to the exporter as a list, a tuple, a generator, an iterator or a filter in turn")
 ASSUMPTIONS = [
     "a chain that mixes && and || without parentheses is not generated: the text does not say which combination is meant",
     "whether an operator 'can be applied' to a field is decided by Python's own operator on the logged value; when that "
@@ -61,7 +61,7 @@ ASSUMPTIONS = [
     "(name, packet id, flags, acks, extra, direction, dropped, synthetic, meta); a vector coming back as a list of the same "
     "numbers is not counted as a change",
 ]
-MUST_REACH = {"filter_evaluations": 20000, "filters_compiled": 1500, "true_verdicts": 2000, "false_verdicts": 2000,
+MUST_REACH = {"exports_from_a_generator": 20, "exports_from_an_iterator": 20, "exports_from_a_filter": 20, "filter_evaluations": 20000, "filters_compiled": 1500, "true_verdicts": 2000, "false_verdicts": 2000,
               "type_mismatch_leaves_evaluated": 300, "subfield_leaves_evaluated": 100, "view_ops": 1500, "view_checks": 1500,
               "window_overflows": 100, "refilters_with_aged_out_visible": 20, "export_import_checked": 100,
               "freeze_thaw_checked": 100, "frozen_hand_typed_entries_with_message_meta": 50, "untouched_lazy_freeze_thaw_checked": 100, "untouched_lazy_freeze_thaw_checked:split-runs": 20, "entry_kinds_covered": 6, "directed_equality_pairs": 300, "directed_wildcard_subfield_leaves": 100, "tz_covered": 3}
@@ -1142,7 +1142,7 @@ def persistence(ctx, world, n):
                                   dict(wit, fields=diff, before=repr(before[diff[0]])[:200], after=repr(after[diff[0]])[:200]))
             # export -> import
             try:
-                imported = import_log_entries(export_log_entries([entry]))
+                imported = import_log_entries(export_log_entries(_handed_over(ctx, [entry])))
                 assert len(imported) == 1
                 imsg = imported[0].message
                 after = message_facts(imsg, ser)
@@ -1167,7 +1167,7 @@ def persistence(ctx, world, n):
         elif r < 0.85:
             entry, model = world.eq()
             try:
-                back = import_log_entries(export_log_entries([entry]))[0]
+                back = import_log_entries(export_log_entries(_handed_over(ctx, [entry])))[0]
             except Exception as e:
                 ctx.violation("export-import-raises:" + type(e).__name__, "exporting and re-importing an event raised",
                               {"event": repr(entry.event)[:300], "exc": repr(e)[:200]})
@@ -1190,7 +1190,7 @@ def persistence(ctx, world, n):
                         "name": e.name, "method": e.method, "summary": e.summary}
             try:
                 before = facts(entry)
-                back = import_log_entries(export_log_entries([entry]))[0]
+                back = import_log_entries(export_log_entries(_handed_over(ctx, [entry])))[0]
                 after = facts(back)
             except Exception as e:
                 ctx.violation("export-import-raises:" + type(e).__name__, "exporting and re-importing an HTTP entry raised",
@@ -1203,6 +1203,25 @@ def persistence(ctx, world, n):
                 ctx.violation("export-import-changes:http-" + diff[0], "an exported and re-imported HTTP entry differs",
                               {"entry": model.name, "before": repr(before[diff[0]])[:300], "after": repr(after[diff[0]])[:300]})
             ctx.nontrivial(("persist", "HTTP", model.name, before["resp"][0]))
+
+
+_FORM = [0]
+
+
+def _handed_over(ctx, entries):
+    """Round 11: the entries to export come as any iterable the signature allows - a list, a tuple, a generator, an iterator, a filter."""
+    _FORM[0] += 1
+    form = _FORM[0] % 5
+    ctx.count("exports_from_" + ["a_list", "a_tuple", "a_generator", "an_iterator", "a_filter"][form])
+    if form == 0:
+        return list(entries)
+    if form == 1:
+        return tuple(entries)
+    if form == 2:
+        return (e for e in entries)
+    if form == 3:
+        return iter(entries)
+    return filter(lambda e: True, entries)
 
 
 def _loose(v):
